@@ -7,23 +7,23 @@ props = [json.loads(l) for l in open(os.path.join(V, 'properties.jsonl'))]
 # id -> (design_ref, level text, level note, technique)
 TB = 'Trusted: the reference model in sim/dmgref (written from Pan Docs / the statements, never imports the emulator), hooks H1-H3, the scenario executor. Sampling, not proof. '
 CLAIMED = {
- 'C01': ('6/C01, A.2', 'Seeded search over generated programs (all lock-step opcodes, CB opcodes, histories, interrupt lines rising mid-instruction with dispatch masked) executed by the real CPU inside the real frame loop in lock step with a reference SM83; registers, F low nibble, written memory and IF/IE compared at every instruction boundary, whole plain memory every 48 instructions; finite operand sweeps (8-bit ALU x carry, CB ops, DAA, 16-bit INC/DEC, SP+e, ADD HL) run as directed workloads through the same oracle.',
+ 'C01': ('6/C01, A.2', 'Seeded search over generated programs (all lock-step opcodes, CB opcodes, histories, interrupt lines rising mid-instruction with dispatch masked) executed by the real CPU inside the real frame loop in lock step with a reference SM83; registers, F low nibble, written memory and IF/IE compared at every instruction boundary, whole plain memory every 48 instructions; finite operand sweeps (8-bit ALU x carry, CB ops, DAA, 16-bit INC/DEC, SP+e, ADD HL) and control-flow sweeps (JR/JR cc x every displacement x every flag nibble, JP/CALL/RET/RETI/RST incl. conditional forms x both outcomes x targets and stack positions incl. page-straddling ones, JP (HL) and LD SP,HL x all 65,536 values; code placed at page ends, at the end of work RAM and at the top of high RAM so that PC wraps) run as directed workloads through the same oracle.',
          TB+'The value space is generated input; the simulator contributes history and interference. HALT/STOP excluded (C05).', 'deterministic simulation: lock-step refinement against reference SM83 over seeded programs + directed sweeps'),
- 'C02': ('6/C02', 'Same lock-step executions judged for length: per-cycle callbacks of the real frame loop between instruction boundaries vs documented length (taken/not-taken from the flags at that moment); directed programs run every opcode under all 16 flag nibbles.',
+ 'C02': ('6/C02', 'Same lock-step executions judged for length: per-cycle callbacks of the real frame loop between instruction boundaries vs documented length (taken/not-taken from the flags at that moment); directed programs run every opcode under all 16 flag nibbles; a quarter of the random programs run while OAM DMA transfers started by the scheduler at arbitrary cycles are in flight.',
          TB+'The repository cycle table is not consulted.', 'deterministic simulation: simulated-clock cycle counts per instruction vs reference SM83'),
  'C03': ('6/C03', 'A simulated peer rewrites every location the tested instruction addresses with a cycle-specific stamp at every cycle boundary (real machine and reference shadow alike); the consumed value identifies the read cycle, the first cycle after which the location no longer holds the stamp identifies the write cycle. Every memory-accessing opcode, after random histories.',
          TB+'Only timing is judged here (wrong values with right timing are C01).', 'deterministic simulation: per-cycle memory stamping by a scheduled peer + reference access cycles'),
- 'C04': ('6/C04', 'Interrupt lines raised by the seeded scheduler at arbitrary machine-cycle offsets of short EI/DI/RETI/IF-IE-write sequences; all 2048 IE x IF x IME combinations at a boundary; lock-step reference interrupt controller decides dispatch/no dispatch, vector, IF bit, IME, pushed address, 5-cycle length, EI delay.',
+ 'C04': ('6/C04', 'Interrupt lines raised by the seeded scheduler at arbitrary machine-cycle offsets of short EI/DI/RETI/IF-IE-write sequences; all 2048 IE x IF x IME combinations at a boundary; lock-step reference interrupt controller decides dispatch/no dispatch, vector, IF bit, IME, pushed address, 5-cycle length, EI delay; class stack-on-ie dispatches with SP = 0000/0001 so that the pushed return address lands on IE (the interrupt taken is still the one that was enabled and requested at the boundary).',
          TB+'Vector choice when the pending set changes during the dispatch is accepted either way (documented-compatible).', 'deterministic simulation: interrupt-line fault injection at cycle offsets vs lock-step reference'),
- 'C05': ('6/C05', 'HALT under every IME x pending combination followed by every opcode; enabled and not-enabled lines raised k cycles after the HALT (k=0..64 dense, log-spaced to 1e5), key events while idle; lock-step reference decides idle/wake/dispatch(6 cycles)/halt-bug double execution.',
+ 'C05': ('6/C05', 'HALT under every IME x pending combination followed by every opcode; enabled and not-enabled lines raised k cycles after the HALT (k=0..64 dense, log-spaced to 1e5), key events while idle; lock-step reference decides idle/wake/dispatch(6 cycles)/halt-bug double execution; EI;HALT with a request already pending: one dispatch of 6 cycles, handler once, request acknowledged.',
          TB+'Wake-up latency with IME=0 pinned to one cycle (DMG behaviour, mooneye halt_ime0_nointr_timing).', 'deterministic simulation: wake-up event injection after every idle length vs lock-step reference'),
  'C12': ('6/C12, A.3', 'Seeded search over interleavings of machine cycles with DIV/TIMA/TMA/TAC writes (random schedules, writes placed by the reference model around every overflow, enumerated short sequences from edge/wrap phases), real frame loop, per-cycle refinement check of DIV/TIMA/TMA/TAC/IF against an independent reference timer.',
          TB+'W1 equivalence: a write at boundary b is the guest write in cycle b+1. The TLA+ part of the quantifier is not done (other technique family).', 'deterministic simulation: seeded cycle-exact bus-write schedules vs reference timer (refinement per machine cycle)'),
  'C24': ('6/C24', 'The same scenario (ROM / generated program / random scene / random code, config, key schedule, frames) is run twice in one process with a disturber instance in between and once in a fresh process under another GOMAXPROCS; checkpoint digests every 4096 cycles (pixels, samples, serial, registers, IF/IE, DIV/TIMA, LY/STAT, NR52) and final state digests (frame, cart RAM, WRAM, HRAM, OAM, all I/O registers) must be equal.',
          'Trusted: digest completeness (what is not digested is not compared). A violation is itself a run-to-run difference, so a replay may not reproduce it; the check then still reports it (6 replay attempts).', 'deterministic simulation: replay equality across runs and processes'),
- 'C25': ('6/C25', 'Two or three instances with different workloads are advanced in an explicit seeded interleaving (slices of 1-3 cycles, hundreds of cycles, whole frames; instances created while others are mid-run) by a scheduler that owns the only token (each instance runs its real frame loop in a parked goroutine); each instance trace must equal its solo trace.',
-         'Trusted: digest completeness. Truly concurrent runs under the race detector are not part of the deciding step.', 'deterministic simulation: seeded interleaving of instances vs solo runs'),
- 'C26': ('6/C26', 'Per-cycle progress of every party (timer counter, PPU position, DMA progress, RTC sub-second, audio samples per frame) measured through the yield point of the real frame loop while generated guest programs (with HALT, STOP, DIV/LCDC/DMA writes whose cycle is known from the lock-step reference) run; real Run() under the simulated context with cancel-before-start, cancel at the k-th Done evaluation, cancel mid-frame, window close; outputs released.',
+ 'C25': ('6/C25', 'Two or three instances with different workloads are advanced in an explicit seeded interleaving (slices of 1-3 cycles, hundreds of cycles, whole frames; instances created while others are mid-run) by a scheduler that owns the only token (each instance runs its real frame loop in a parked goroutine); each instance trace must equal its solo trace; instances of mixed configurations (DebugLCD). Class concurrent (one tenth of the scenarios): 2-4 instances without simulated devices are constructed and run by goroutines released together inside a race-detector build of the simulator (child process); each trace must equal its solo trace and the race detector must stay silent.',
+         'Trusted: digest completeness. Class concurrent is the one place where real threads run unscheduled: its verdict (a happens-before race report, or a digest difference) does not depend on the interleaving for code that shares nothing, which is what the unchanged tree must be; it is a minority class beside the seeded interleavings.', 'deterministic simulation: seeded interleaving of instances vs solo runs (+ concurrent construction under the Go race detector)'),
+ 'C26': ('6/C26', 'Per-cycle progress of every party (timer counter, PPU position, DMA progress, RTC sub-second, audio samples per frame) measured through the yield point of the real frame loop while generated guest programs (with HALT, STOP, DIV/LCDC/DMA writes whose cycle is known from the lock-step reference) run; a timer overflow, whether caused by the counter or by a DIV/TAC write of the guest, must raise the request by the end of the reload cycle (reference timer alongside); real Run() under the simulated context with cancel-before-start, cancel at the k-th Done evaluation, cancel mid-frame, window close; outputs released.',
          TB+'Party progress is read through the verif accessors.', 'deterministic simulation: per-cycle party progress + cancellation/close fault injection into the real Run loop'),
 }
 
@@ -34,15 +34,15 @@ CLAIMED.update({
          TB+'Effect sets are per address class as listed in the evidence rule; observation reads are side-effect free (OAM peeked).', 'deterministic simulation: before/after whole-address-space diff around scheduled single writes in seeded machine states'),
  'C08': ('6/C08', 'Stateful conformance of ROM banking run through the simulator: every real controller x ROM size x RAM size configuration, histories of control writes (region edges, A8 set/clear, 0/0A/small/random values) and directed all-256-value sweeps per control region; after every operation both ROM windows are read at nine addresses incl. page signatures and compared with reference controller models; every page carries a unique pattern.',
          TB+'No clock or fault in this property (pure history dependence), said in DESIGN; DMA-vs-bank-switch interleaving is in C16.', 'deterministic simulation (weak fit): control-write histories vs reference MBC models'),
- 'C09': ('6/C09', 'Histories of RAM enable/disable, bank/mode selects (incl. out-of-range), writes and reads over the whole window (edges, MBC2 mirrors) interleaved with elapsing cycles on every controller x RAM size; window read back after every operation and Mapper.DumpRAM compared at the end with the reference RAM model.',
+ 'C09': ('6/C09', 'Histories of RAM enable/disable, bank/mode selects (incl. out-of-range), writes and reads over the whole window (edges, MBC2 mirrors) interleaved with elapsing cycles on every controller x RAM size; window read back after every operation and Mapper.DumpRAM compared at the end with the reference RAM model; window writes made while an MBC3 clock register or an unmapped select (0D-0F) is selected are performed and must leave every RAM bank as it was.',
          TB+'Nothing is persisted by the emulator, so retention means across gate and bank events in a run.', 'deterministic simulation: RAM gate/bank histories vs reference cartridge RAM model'),
- 'C10': ('6/C10', 'Clock time is really run (1,048,576 cycles of the real loop per second); a clock-warp fault jumps the live counters to just before second/minute/hour/day/overflow boundaries; histories of latch-low/latch-high/select/read/write/halt operations separated by cycles to seconds; every read compared with the reference RTC; one-second step compared on 1.6 million sampled and boundary counter states.',
+ 'C10': ('6/C10', 'Clock time is really run (1,048,576 cycles of the real loop per second); a clock-warp fault jumps the live counters to just before second/minute/hour/day/overflow boundaries; histories of latch-low/latch-high/select/read/write/halt operations separated by cycles to seconds; every read compared with the reference RTC, also while the other bus parties are busy (bursts of OAM DMA transfers, LCD/timer/sound switched on and off by the same histories); one-second step compared on 1.6 million sampled and boundary counter states.',
          TB+'The warp is injected into emulator and model through the verif accessor.', 'deterministic simulation: simulated time + clock-warp faults vs reference RTC'),
  'C11': ('6/C11', 'Storage faults at load (short, odd-sized, random, size-mismatched, missing images; every cart type byte x size codes) and hostile guests (all-256-value single-write sweeps on every control region with reads of every window, random read/write histories anywhere, random bytes and generated programs as code with random interrupt lines and key events, I/O register storms with sound retriggers, LCD and DMA restarts); any panic from emulator frames after successful construction is a violation.',
          'Trusted: the stack classifier that attributes a panic to emulator or harness frames; the undefined-opcode guard (the emulator exits the process there by design).', 'deterministic simulation: load-time storage faults + hostile guest schedules, crash oracle'),
- 'C13': ('6/C13, A.4', 'LCD switched off/on by the scripted bus master at arbitrary cycles (uniform, at every mode boundary +-1, at each cycle offset of a line) plus noise writes to LY/STAT/LYC/scroll; LY and STAT mode read after every cycle of 1-3 frames and compared with the reference line/mode counter.',
+ 'C13': ('6/C13, A.4', 'LCD switched off/on by the scripted bus master at arbitrary cycles (uniform, at every mode boundary +-1, at each cycle offset of a line) plus noise writes to LY/STAT/LYC/scroll, LCDC rewrites that keep bit 7 (also inside the shortened first line), scroll/window/palette writes placed around mode boundaries and an object table covering most lines; LY and STAT mode read after every cycle of 1-3 frames and compared with the reference line/mode counter.',
          TB+'Mode 3 has the fixed 41-cycle length of the statement.', 'deterministic simulation: LCD on/off schedules vs reference line/mode counter (per-cycle refinement)'),
- 'C14': ('6/C14, A.4', 'Single STAT source x every LYC value x 3-4 frames with LCD off/on switches at random and boundary cycles; IF bits 0-1 read and cleared after every cycle so each request is attributed to its cycle; request instants predicted by the reference counter.',
+ 'C14': ('6/C14, A.4', 'Single STAT source x every LYC value x 3-4 frames with LCD off/on switches at random and boundary cycles; scroll/window/palette/LCDC-low-bit writes around mode boundaries, objects on most lines and the constant LYC value stored again at arbitrary cycles (also inside its own line); IF bits 0-1 read and cleared after every cycle so each request is attributed to its cycle; request instants predicted by the reference counter.',
          TB+'Only single-source configurations; line 144 and the switch-on instant accepted either way for the OAM source.', 'deterministic simulation: per-cycle interrupt-request attribution vs reference counter'),
  'C16': ('6/C16, A.5', 'DMA from every source page with random contents; restarts of running transfers at random and boundary cycles; ROM/RAM bank switches and source-byte writes during the transfer; OAM read over the bus at three addresses after every cycle; final OAM must hold, byte for byte, a value the source byte had during the transfer.',
          TB+'LCD off; a byte changed during the copy may be old or new; cycles 0,1,161 of a transfer may or may not block.', 'deterministic simulation: DMA engine vs scripted bus master with mid-transfer faults'),
@@ -51,7 +51,7 @@ CLAIMED.update({
 })
 
 CLAIMED.update({
- 'C15': ('6/C15', 'Random scenes within the statement restrictions (tile data, both maps, both addressing modes, scroll, window anywhere, 0-40 objects incl. partly outside each edge and lines holding exactly ten, flips, palettes, priorities) rendered by the real PPU inside the real frame loop with the LCD switched on at a random cycle of the loop, 2-4 frames, CPU parked or busy; all 23,040 pixels of the frame handed to the simulated display compared with a reference compositor.',
+ 'C15': ('6/C15', 'Random scenes within the statement restrictions (tile data, both maps, both addressing modes, scroll, window anywhere, 0-40 objects incl. partly outside each edge and lines holding exactly ten, flips, palettes, priorities) rendered by the real PPU inside the real frame loop with the LCD switched on at a random cycle of the loop, 2-4 frames, CPU parked or busy; every frame handed to the simulated display whose 144 lines were all drawn from the current scene (the first whole frame after an LCD restart or scene change included) is compared, all 23,040 pixels, with a reference compositor; a third of the scenes align the background and window coordinate systems with each other (same map row/column, one before, one after).',
          TB+'Weak fit, said in DESIGN: the simulator contributes the phase between LCD switch-on, frame loop and display hand-over; the scene->pixel map is generated input. Shade RGB values are learnt per frame and must be consistent, grey and ordered.', 'deterministic simulation (weak fit): frame hand-over phase sweep + reference compositor'),
  'C18': ('6/C18, A.7', 'Histories of writes of arbitrary values to FF10-FF3F and NR52 power toggles interleaved with machine cycles while the sound unit runs; all registers, NR52 and (channel 3 off) wave RAM read back after every operation and elapsed span against the reference register file.',
          TB+'NR52 bits 0-3 belong to C19; wave RAM is re-baselined after writes/retriggers while channel 3 plays.', 'deterministic simulation: register-write histories with power toggles vs reference register file'),
@@ -59,11 +59,11 @@ CLAIMED.update({
          TB+'The NR10 negate-clear quirk is not in the statement and is kept out of the schedules.', 'deterministic simulation: event placement over frame-sequencer phases vs reference length/status model (per-cycle)'),
  'C20': ('6/C20', 'Simulated audio consumer: per-cycle drain with cycle stamps (95-clock grid between re-phasings, L/R pairing, 44,149-44,150 pairs per second, none while off, range, zero when nothing routed); slow consumer with capacity 1-64 and burst reads while the emulator runs its own Run loop in a goroutine and really blocks (stream equality with the prompt consumer); paired runs differing only in an unrouted channel.',
          TB+'A once-per-second re-phasing gap of 96-189 clocks is accepted (the statement gives two incompatible figures).', 'deterministic simulation: simulated consumer with back-pressure/stall faults + history checks on the sample stream'),
- 'C21': ('6/C21', 'Waveform step counts over windows of whole periods for sampled (quick) or all (thorough) frequencies of channels 1-3, cycles between shift-register clocks for NR43 values, output sequence period 32767/127 and no shorter, while other channels are triggered at random cycles.',
+ 'C21': ('6/C21', 'Waveform step counts over windows of whole periods for sampled (quick) or all (thorough) frequencies of channels 1-3, cycles between shift-register clocks for NR43 values, output sequence period 32767/127 and no shorter, while other channels are triggered at random cycles; channel 1 while its sweep unit rewrites the frequency (every step interval is the period of a frequency of the sweep sequence, walked forwards, ending at the final one).',
          TB+'Weak fit, said in DESIGN: clock-only; positions read through the verif accessor.', 'deterministic simulation (weak fit): period measurement on the simulated clock with cross-channel interference'),
  'C22': ('6/C22', 'Random walks of key down/up events delivered through the simulated display seam interleaved with JOYP writes and reads at arbitrary cycles against a reference joypad; all 576 reachable (select, directions, buttons) states are reached in the quick budget (reported).',
          TB+'Weak fit, said in DESIGN; BFS named in the quantifier is model checking and is not done.', 'deterministic simulation (weak fit): user-input event walks vs reference joypad'),
- 'C23': ('6/C23', 'Generated programs interleaving SB/SC writes (all store forms) with DMA starts, timer/LCD/sound pokes and interrupt dispatch, with and without a writer; blargg ROMs as guests with SB writes snooped at instruction boundaries; the recorded writer history must equal the written sequence exactly once, in order, nothing else; SB/SC read FF.',
+ 'C23': ('6/C23', 'Generated programs interleaving SB/SC writes (all store forms) with DMA starts, timer/LCD/sound pokes and interrupt dispatch, with and without a writer; blargg ROMs as guests with SB writes snooped at instruction boundaries; the recorded writer history must equal the written sequence (and, if a program leaves its path, the SB stores actually executed) exactly once, in order, nothing else; SB/SC read FF; class pair: two instances with slow writers that block inside Write before consuming the byte while the scheduler runs the other instance.',
          TB+'Writer errors are not injected (panic by design, statement silent).', 'deterministic simulation: recorded serial history vs guest write sequence (exactly-once, in-order)'),
 })
 NOT_YET = 'check not built yet in this session; planned in DESIGN.md section 6 (will be claimed when its simulator scenario class and oracle exist)'
